@@ -26,6 +26,9 @@ FMT_SEGS = {
 def usage_node(rng, what):
     if what == "plural":
         rule = pick(rng, ["cardinal", "ordinal"])
+        if rng.random() < 0.4:
+            # the `other` form is plain text, the count only shows in another form
+            return {"k": "plural", "rule": rule, "forms": {"one": [{"s": "var", "name": "count", "fmt": None}, {"s": "text", "v": " item"}], "other": [{"s": "text", "v": "several items"}]}}
         return {"k": "plural", "rule": rule, "forms": {"one": [{"s": "text", "v": "one"}], "other": [{"s": "var", "name": "count", "fmt": None}, {"s": "text", "v": " many"}]}}
     seg = {"s": "var", "name": "fv", "fmt": copy.deepcopy(FMT_SEGS[what])}
     style = rng.random()
@@ -33,7 +36,8 @@ def usage_node(rng, what):
         # the formatter sits on the *count* variable of a plural / a range (two families from one variable)
         cseg = {"s": "var", "name": "count", "fmt": copy.deepcopy(FMT_SEGS[what])}
         if rng.random() < 0.6:
-            return {"k": "plural", "rule": "cardinal", "forms": {"one": [copy.deepcopy(cseg), {"s": "text", "v": " item"}], "other": [copy.deepcopy(cseg), {"s": "text", "v": " items"}]}}
+            other = [copy.deepcopy(cseg), {"s": "text", "v": " items"}] if rng.random() < 0.6 else [{"s": "text", "v": "several items"}]
+            return {"k": "plural", "rule": "cardinal", "forms": {"one": [copy.deepcopy(cseg), {"s": "text", "v": " item"}], "other": other}}
         return {"k": "range", "ty": "u32", "branches": [{"specs": [{"r": "exact", "v": 0}], "segs": [{"s": "text", "v": "none"}]},
                                                         {"specs": None, "fb": "_", "segs": [cseg, {"s": "text", "v": " x"}]}]}
     if style < 0.4:
